@@ -2,6 +2,7 @@ package ast
 
 import (
 	"bytes"
+	"sort"
 	"strings"
 
 	"github.com/skx/evalfilter/v2/token"
@@ -34,6 +35,10 @@ func (hl *HashLiteral) String() string {
 			pairs = append(pairs, key.String()+":"+value.String())
 		}
 	}
+	// The pairs live in a map: sort them so that the same literal
+	// always has the same string-representation.
+	sort.Strings(pairs)
+
 	out.WriteString("{")
 	out.WriteString(strings.Join(pairs, ", "))
 	out.WriteString("}")
